@@ -60,3 +60,14 @@ Fixpoint mism_from {X} (chk : X -> bool) (k : nat) (l : list X) : list nat :=
   | x :: r => if chk x then mism_from chk (S k) r else k :: mism_from chk (S k) r
   end.
 Definition mism {X} (chk : X -> bool) (l : list X) := mism_from chk 0%nat l.
+
+(* ImportanceFlowProposal.draw: (n, recorded batches: accept mask, candidate ids, row ids; observed (sample id, row id)
+   pairs in the order returned) - the model pairs the same two filtered, concatenated, trimmed arrays *)
+Fixpoint pairs_eqb (a b : list (nat * nat)) : bool :=
+  match a, b with
+  | [], [] => true
+  | (x, y) :: a', (u, v) :: b' => (x =? u)%nat && (y =? v)%nat && pairs_eqb a' b'
+  | _, _ => false
+  end.
+Definition chk_draw_aligned (c : nat * list (draw_batch nat nat) * list (nat * nat)) : bool :=
+  let '(n, bs, obs) := c in pairs_eqb (draw_aligned n bs) obs.
